@@ -4759,10 +4759,11 @@ def _make_segments(part):
                 segment_info[ss]["to"].append(
                     "Navigation2_" + segment_info[coda_time]["ID"]
                 )
-                # a segment that is itself the target of a jump (it starts at
-                # the segno) stays a leap destination
-                if segment_info[ss]["type"] != "leap_end":
-                    segment_info[ss]["type"] = "leap_start"
+                # no leap type: the jump to the coda waits in await_to until
+                # the da capo / dal segno has been taken, and that is the
+                # leap; typed "leap_start", a plain continuation or repeat
+                # from this segment to a leap destination (a coda that
+                # follows at once, the start of the piece) was taken for one
                 segment_info[ss]["info"].append("al coda")
 
             if boundary_type == "segno":
